@@ -169,6 +169,21 @@ func c05(r *mon.Run) {
 					Expected: fmt.Sprintf("allocation <= %d bytes (size-derived bound)", bound), Observed: fmt.Sprintf("%d bytes allocated", used), Class: "allocation bound"})
 			}
 		}})
+	th := r.Tier == "thorough"
+	ws = append(ws, mon.Workload{Name: "sized-arrays", N: sizedCount(th), Batch: 500,
+		Describe: func(i int) string { _, _, d := sizedCase(i, th); return d },
+		Do: func(i int, t *mon.Tally) {
+			tree, doc, desc := sizedCase(i, th)
+			expr := gen.SpellTight(tree)
+			t.Eval()
+			for k, o := range []mon.Observed{apiSearch(expr, doc), apiCompiledSearch(expr, doc)} {
+				if o.Panicked {
+					r.Violate(&mon.Violation{Workload: "sized-arrays", Index: i, API: []string{"Search", "Compile+Search"}[k], Expr: expr, DocDesc: desc, Expected: "a value or an error", Observed: o.String(), Detail: o.Stack, Class: "sized-arrays: panic"})
+					return
+				}
+			}
+			t.Nontrivial("sized:" + strconv.Itoa(i))
+		}})
 	r.Exec(ws...)
 	r.Extra["hostile_documents"] = len(hd)
 }
